@@ -13,10 +13,13 @@ from . import core
 _OPS = {}
 
 
-def grid(g):
+UNIT_EXPS = (0, -3, 3)        # GridOps.tla: UnitExps
+
+
+def grid(g, unit=1.0):
     """voxel vertices and index maps for the grid; voxels ordered column by column, top to bottom (iy_code increases downwards)."""
     import numpy as np
-    key = json.dumps(g, sort_keys=True)
+    key = json.dumps([g, unit], sort_keys=True)
     if key in _OPS:
         return _OPS[key]
     from cherab.tools.inversions.admt_utils import generate_derivative_operators
@@ -32,7 +35,7 @@ def grid(g):
             m21[(ix, jy)] = k
             centres.append((cx, cy, ix, iy))
             k += 1
-    ops = generate_derivative_operators(np.array(verts, float), m12, m21)
+    ops = generate_derivative_operators(np.array(verts, float) * unit, m12, m21)
     index = {(ix, iy): i for i, (_, _, ix, iy) in enumerate(centres)}
     _OPS[key] = (ops, centres, index)
     if len(_OPS) > 200:
@@ -60,6 +63,16 @@ def replay(rec, ctx):
             deg = "constant" if not any(c["p"][1:]) else ("linear" if not any(c["p"][3:]) else ("bilinear" if not (c["p"][3] or c["p"][5]) else "quadratic"))
             viol.append({"sig": f"{c['op']}:{rec['class']}-cell:{deg}-field-not-exact",
                          "detail": f"grid {g}, cell ({c['ix']},{c['iy']}) at ({rec['x']},{rec['y']}), field {c['p']}: operator gives {got!r}, exact {want!r}"})
+            return viol
+        order = 1 if c["op"] in ("Dx", "Dy") else 2
+        for e in UNIT_EXPS[1:]:
+            u = 10.0 ** e
+            ops_u, _, _ = grid(g, u)
+            got_u = float(ops_u[c["op"]][i] @ f)
+            want_u = want / u ** order
+            if abs(got_u - want_u) > 1e-9 * max(1.0 / u ** order, abs(want_u)):
+                viol.append({"sig": f"{c['op']}:not-homogeneous-in-the-length-unit:1e{e}", "detail": f"grid {g} in units of 1e{e}: {got_u!r} vs {want_u!r}"})
+                break
         return viol
     from cherab.tools.inversions.admt_utils import calculate_admt
     psi = np.array([poly(c["psi"], x, y) for x, y, _, _ in centres], float)
